@@ -44,6 +44,7 @@ class PathSummary:
         self.decisions = {}   # terminator cond node id -> polarity
         self.blocks = []
         self.trace = []       # every CFG element and branch decision in evaluation order
+        self.casevals = {}    # switch operand path -> set of values still possible
 
     def called(self, *names):
         return [c for c in self.calls if c.get("callee") in names]
@@ -133,6 +134,7 @@ def _clone(ps):
     q.decisions = dict(ps.decisions)
     q.blocks = list(ps.blocks)
     q.trace = list(ps.trace)
+    q.casevals = {k: set(v) for k, v in ps.casevals.items()}
     return q
 
 
@@ -155,6 +157,9 @@ def _do_elem(ps, n):
                 ps.env[p[1:]] = UNKNOWN
             if p:
                 roots.add(p.lstrip("&*"))
+        for key in list(ps.casevals):
+            if n.get("callee") is None or any(key == r or key.startswith(r + "->") or key.startswith(r + ".") for r in roots):
+                del ps.casevals[key]
         for key in list(ps.env):
             if "->" in key or "." in key:
                 if n.get("callee") is None or any(key == r or key.startswith(r + "->") or key.startswith(r + ".")
@@ -169,6 +174,8 @@ def _do_elem(ps, n):
     if t is None:
         return
     ps.events.append(("store", n))
+    if t.get("path") in ps.casevals:
+        del ps.casevals[t["path"]]
     if t.k == "MemberExpr" and t.get("path") and "[" not in t["path"] and t.get("tk") in ("int", "enum", "bool"):
         key = t["path"]
         if n.k == "BinaryOperator" and n.get("op") == "=":
@@ -315,6 +322,15 @@ def summarize(fn, max_visits=2, limit=20000, params=None):
                 if v.kind == "const" and v.v is not None and not (lab[1] <= v.v <= lab[2]):
                     continue
                 if sw is not None:
+                    key = sw.strip_all_casts().get("path")
+                    if key:
+                        cur = q.casevals.get(key)
+                        new = set(range(lab[1], lab[2] + 1))
+                        if cur is not None:
+                            new &= cur
+                            if not new:
+                                continue
+                        q.casevals[key] = new
                     q.facts.append((sw, lab))
                     q.events.append(("branch", sw, lab))
             elif lab[0] in ("default", "switch-exit"):
@@ -328,6 +344,12 @@ def summarize(fn, max_visits=2, limit=20000, params=None):
                 if v.kind == "const" and v.v is not None and any(lo <= v.v <= hi for lo, hi in others):
                     continue
                 if sw is not None:
+                    key = sw.strip_all_casts().get("path")
+                    if key and key in q.casevals:
+                        rest = {x for x in q.casevals[key] if not any(lo <= x <= hi for lo, hi in others)}
+                        if not rest:
+                            continue
+                        q.casevals[key] = rest
                     q.facts.append((sw, ("default", tuple(others))))
                     q.events.append(("branch", sw, ("default", tuple(others))))
             if s.id in widen and visits.get(s.id, 0) >= 1:
